@@ -273,6 +273,8 @@ func (session *ServerCommandSession) handleAnnounce(requestCtx nazahttp.HttpReqM
 	session.pubSession.InitWithSdp(sdpCtx)
 
 	if err = session.observer.OnNewRtspPubSession(session.pubSession); err != nil {
+		// 没有被上层接受的session，连接关闭时不应该再通知上层删除
+		session.pubSession = nil
 		return err
 	}
 
@@ -309,6 +311,8 @@ func (session *ServerCommandSession) handleDescribe(requestCtx nazahttp.HttpReqM
 	ok, rawSdp := session.observer.OnNewRtspSubSessionDescribe(session.subSession)
 	if !ok {
 		Log.Warnf("[%s] force close subSession.", session.uniqueKey)
+		// 没有被上层接受的session，连接关闭时不应该再通知上层删除
+		session.subSession = nil
 		return base.ErrRtspClosedByObserver
 	}
 
